@@ -213,12 +213,17 @@ def run_shard(tier: str, seed: int, shard: int):
     A = alphabet(tier)
     first = A[shard]
     # 1, 2 and 3 conclusions whose first conclusion is `first`
-    run_rule(acc, engine, block, [first], tier, True)
+    def go(conclusions, via_block):
+        case = {"conclusions": [[c[0], list(c[1]), c[2]] for c in conclusions]}
+        if not acc.guard(case, run_rule, acc, engine, block, conclusions, tier, via_block):
+            block.rules = []
+
+    go([first], True)
     for second in A:
-        run_rule(acc, engine, block, [first, second], tier, True)
+        go([first, second], True)
     for second in A:
         for third in A:
-            run_rule(acc, engine, block, [first, second, third], tier, False)
+            go([first, second, third], False)
     acc.states = acc.evals
     if shard == 1:
         acc.sample({"rule": RG.rule_text(RG.prop("i", (), "a"), [A[1], A[2], A[0]]), "degree": 0.5,
@@ -249,5 +254,5 @@ def replay(case: dict):
     acc = Acc(ID)
     engine, block = build_engine()
     conclusions = [(c[0], tuple(c[1]), c[2]) for c in case["conclusions"]]
-    run_rule(acc, engine, block, conclusions, "quick", True)
+    acc.guard(case, run_rule, acc, engine, block, conclusions, "quick", True)
     return acc.violations
